@@ -102,6 +102,13 @@ def oracle_equiv(case):
         warm = cls(**copy.deepcopy(base_kw))
     compare_fits(label, [named, pre, cal, warm], [(X, None), (X, A), (X, None), (X, None)],
                  ["named", "precomputed", "callable", "named, used before on data with another number of features"])
+    # the user's matrix reaches the model through every entry point that takes it (fit_predict as well as fit)
+    try:
+        fp = quiet(cls(**dict(base_kw, **{key: "precomputed", key + "_params": None})).fit_predict, X, A)
+    except Exception as e:
+        raise Violation(f"{label}: fit_predict(X, matrix) of the 'precomputed' variant raised {type(e).__name__}: {e}")
+    if not np.array_equal(np.asarray(fp), named.labels_):
+        raise Violation(f"{label}: fit_predict(X, matrix) of the 'precomputed' variant gives other labels than fit of the named variant")
     Aw = np.asarray(warm.get_gemini().compute_affinity(X))
     if Aw.shape != A.shape or not np.allclose(Aw, A, rtol=1e-12, atol=1e-12 * max(1.0, float(np.max(np.abs(A))))):
         raise Violation(f"{label}: after fits on two data sets, the affinity of get_gemini() is not scikit-learn's {a['name']} "
